@@ -48,7 +48,21 @@ func GenInput(t *simrt.Tape, class string) (name string, text string) {
 	numRe := []string{`/[0-9]+/`, `$NUMBER`, `/0|[1-9][0-9]*/`}[t.Draw(3)]
 	switch class {
 	case InAccepted:
-		switch t.Draw(9) {
+		switch t.Draw(11) {
+		case 9, 10:
+			// a few long keywords: a token automaton with well over 64 states, yet only a handful of
+			// productions (the dependency's LALR construction is slow in the number of productions)
+			n := 5 + t.Draw(3)
+			var items []string
+			for i := 0; i < n; i++ {
+				var w strings.Builder
+				l := 11 + t.Draw(6)
+				for j := 0; j < l; j++ {
+					w.WriteByte(byte('a' + (i*7+j*3+t.Draw(4))%26))
+				}
+				items = append(items, `"`+w.String()+`"`)
+			}
+			fmt.Fprintf(&b, "ID = %s;\nstart = { item };\nitem = ID | %s;\n", []string{`/[a-z]+/`, `/[a-z][a-z0-9]*/`}[t.Draw(2)], strings.Join(items, " | "))
 		case 7, 8:
 			// keyword lists: same-kind, same-length names that differ only in case or in one letter -
 			// ties for any comparator that is coarser than the full name
